@@ -10,6 +10,10 @@ open Rpyc
 /-- `FRAME_HEADER.size` is the sum of the two field widths -/
 theorem hdrSize_eq : Gen.frameHeaderSize = Gen.frameLenWidth + Gen.frameFlagWidth := by decide
 
+/-- the length field can express every payload length below 4 GiB (the statement's "far beyond the
+chunk size"; a narrower field would make `send` refuse large packets with `struct.error`) -/
+theorem lenRange_ge : 2 ^ 32 ≤ 256 ^ Gen.frameLenWidth := by decide
+
 /-- the flag field can hold the value 1 -/
 theorem one_lt_flagRange : 1 < 256 ^ Gen.frameFlagWidth := by decide
 
